@@ -35,3 +35,5 @@ from ..core import optimised_child_sub  # noqa: E402
 
 SUBS.append(optimised_child_sub("C09", ["fill-level-scripts", "equal-size-scripts"], name="scripts-under-python-O"))
 TIME_BUDGET = {"quick": 150, "thorough": 1500}
+SUBS.append(optimised_child_sub("C09", ["fill-level-scripts", "equal-size-scripts"], flags=(), name="scripts-with-debug-logging", extra_env={"VERIF_LOGGING": "DEBUG"},
+                                what="logging.basicConfig(level=DEBUG): every logger is enabled for every level"))
